@@ -130,3 +130,10 @@ def run(ctx, prop):
     for v in violations:
         v.setdefault("class", "")
     return conclude(ctx, violations, "model_checking", coverage, ASSUME)
+
+
+TXTAR_LEVEL = ("TLC enumerates every byte string up to the length bound over the marker-relevant alphabet as the states of "
+               "MC_Txtar, checks the statement's laws on the explicit reference semantics (Txtar.tla) in every state and emits "
+               "the predicted result; each case is replayed into the real package (panic, re-parse stability, x/tools "
+               "agreement, CRLF rule, quoting laws). Real results on seeded random inputs are validated by TLC against the "
+               "same specification (Trace_Txtar).")
